@@ -3,7 +3,7 @@
 From Coq Require Import String.
 From Coq Require Import List NArith.
 From Coq.Strings Require Import Byte.
-From Borsh Require Import Bytes Result Ty Ser De Entry Schema SchemaFns SchemaSpec ArrayGuard.
+From Borsh Require Import Bytes Result Ty Ser De Entry Schema SchemaFns SchemaSpec ArrayGuard Io.
 From Borsh Require Import Discr Item DeriveCheck Derive.
 Require Import ExtrOcamlBasic.
 Extraction Language OCaml.
@@ -18,4 +18,5 @@ Extraction "model.ml"
   max_size max_size_at validate is_zero_size max_unbounded
   ArrayGuard.deserialize
   check violations derive_ty documented_sem has_variant_attrs implicit_overflow type_dependent_discr discrs_canonical
-  rust_discrs derive_discrs tag_eval canonical parse tokens_of.
+  rust_discrs derive_discrs tag_eval canonical parse tokens_of
+  decr try_from_reader_count to_writer sw_write_all fw_write_all vw_write_all run_ops observable io_std io_shim world0.
